@@ -239,3 +239,26 @@ func PlantedKSAT(r *rand.Rand, n, m, k int) ([][]int, []bool) {
 	}
 	return res, w
 }
+
+// WideChain is an unsatisfiable formula whose refutation needs one decision level per chain variable:
+// (a_1 v ... v a_n v z), (a_1 v ... v a_n v -z); a_{i+1} -> a_i stated as (-a_{i+1} v a_i v w_i),
+// (-a_{i+1} v a_i v -w_i); a_1 false stated as (-a_1 v u), (-a_1 v -u). The first learned clauses of a
+// CDCL run have about n literals: a family that reaches sizes random formulas never reach.
+func WideChain(r *rand.Rand, n int) (clauses [][]int, nbVars int) {
+	nbVars = 2*n + 1
+	perm := r.Perm(nbVars)
+	v := func(i int) int { return perm[i] + 1 }
+	a := func(i int) int { return v(i) }   // i in 0..n-1
+	w := func(i int) int { return v(n + i) } // i in 0..n-2
+	z, u := v(2*n-1), v(2*n)
+	var wide1, wide2 []int
+	for i := 0; i < n; i++ {
+		wide1, wide2 = append(wide1, a(i)), append(wide2, a(i))
+	}
+	clauses = append(clauses, append(wide1, z), append(wide2, -z))
+	for i := 0; i+1 < n; i++ {
+		clauses = append(clauses, []int{-a(i + 1), a(i), w(i)}, []int{-a(i + 1), a(i), -w(i)})
+	}
+	clauses = append(clauses, []int{-a(0), u}, []int{-a(0), -u})
+	return clauses, nbVars
+}
